@@ -9,6 +9,7 @@ import (
 	"math/big"
 
 	sdkmath "cosmossdk.io/math"
+	storetypes "github.com/cosmos/cosmos-sdk/store/types"
 	sdk "github.com/cosmos/cosmos-sdk/types"
 	authtypes "github.com/cosmos/cosmos-sdk/x/auth/types"
 	"github.com/ethereum/go-ethereum/common"
@@ -38,6 +39,10 @@ var c07 struct {
 	// createBumpsNonce: go-ethereum's create increments the caller's nonce before running the init code, unless it fails
 	// earlier (call depth, insufficient balance)
 	createBumpsNonce bool
+	// effects: what the interpreter (and a precompile called by it) writes while it runs: an EVM storage slot and a
+	// Cosmos-side record written straight into the SDK context of the StateDB (used by the C05 harness)
+	effects  bool
+	storeKey storetypes.StoreKey
 }
 
 func c07NewEVM(k *Keeper, ctx sdk.Context, msg core.Message, cfg *statedb.EVMConfig, tracer vm.EVMLogger, stateDB vm.StateDB) *vm.EVM {
@@ -47,6 +52,12 @@ func c07NewEVM(k *Keeper, ctx sdk.Context, msg core.Message, cfg *statedb.EVMCon
 
 func c07Run(gas uint64) (uint64, error) {
 	c07.gasGiven = gas
+	if c07.effects {
+		c07.stateDB.SetState(c07To, common.Hash{31: 1}, common.Hash{31: 7})
+		if sdb, ok := c07.stateDB.(*statedb.StateDB); ok {
+			sdb.GetContext().KVStore(c07.storeKey).Set([]byte("zz-precompile-effect"), []byte{1})
+		}
+	}
 	c07.stateDB.AddRefund(c07.refund)
 	left := c07.leftover
 	if left > gas {
